@@ -133,6 +133,32 @@ def reload_ensemble_part(ck, tier):
                      {"rows": int(S.shape[0]), "first_bad_row": bad[:1], "rows_before_save_unchanged": bool(kept)}, site="EnsembleSampler.load:ProbsBelong")
 
 
+def defaults_part(ck, tier):
+    """the read-outs with their DEFAULT arguments are aligned: the k-th log-probability belongs to the k-th sample"""
+    from inference.mcmc.gibbs import GibbsChain, MetropolisChain
+    from inference.mcmc import PcaChain, HamiltonianChain, EnsembleSampler
+    post = GaussPost(3)
+    arrays = _arrays()
+    for cls_name in ("GibbsChain", "MetropolisChain", "PcaChain", "HamiltonianChain", "EnsembleSampler"):
+        ck.case(("defaults", cls_name))
+        try:
+            ch, step, _ = _mk(cls_name, _arrays(), 19 + seed())
+            for _ in range(7):
+                step()
+            S, P = np.asarray(ch.get_sample(), dtype=float), np.asarray(ch.get_probabilities(), dtype=float)
+            par = np.asarray(ch.get_parameter(1), dtype=float)
+        except Exception as ex:
+            ck.violation("read-out with default arguments raised", {"class": cls_name, "error": repr(ex)[:200]}, site=f"{cls_name}.readout")
+            continue
+        T_inv = 1.0 if cls_name == "EnsembleSampler" else ch.inv_temp
+        ok = S.shape[0] == P.shape[0] == par.shape[0] and all(abs(P[k] - post(S[k]) * T_inv) <= 1e-12 * max(1.0, abs(P[k])) for k in range(len(P))) \
+            and np.array_equal(par, S[:, 1])
+        if not ok:
+            ck.violation("read-outs with default arguments are aligned: the k-th log-probability is the posterior at the k-th sample",
+                         {"class": cls_name, "samples": int(S.shape[0]), "log_probabilities": int(P.shape[0]), "parameter_values": int(par.shape[0])},
+                         site=f"{cls_name}.readout:defaults")
+
+
 def dtype_part(ck, tier):
     # The abstract state has no dtype: a sampler built from whole-number inputs given as INTEGER arrays evolves exactly like the one built
     # from the equal float arrays (same generators).  (An integer start must not turn the chain into an integer chain.)
@@ -287,6 +313,7 @@ def run(tier):
     ownership_part(ck, tier)
     reload_part(ck, tier)
     reload_ensemble_part(ck, tier)
+    defaults_part(ck, tier)
     pt_part(ck, tier)
     from harness import repotests
     repotests.run_part(ck, "C03")          # traces of the repository's own MCMC tests, judged by TestRunTrace.tla
